@@ -27,3 +27,40 @@ Print Assumptions C28_later_exceeds_earlier.
 Theorem C28_oracle_accepts_model : forall i, oracle i (model_obs i) = true.
 Proof. exact oracle_accepts_model. Qed.
 Print Assumptions C28_oracle_accepts_model.
+
+(* ---- the tracker inside a running server: tables, transactions, ALTER, restarts ---- *)
+From Dolt Require Import C28.Server C28.ServerProofs.
+
+Theorem C28_init_is_max_over_branches :
+  forall branches tables autos s w t,
+    let w' := snd (sstep branches tables autos s SRestart w) in
+    cur w' t = N.max 1 (max_over (fun b => bval w b t) branches)
+    /\ (forall b, In b branches -> bval w' b t <= cur w' t)
+    /\ (cur w' t = 1 \/ exists b, In b branches /\ cur w' t = bval w b t).
+Proof. exact init_is_max_over_branches. Qed.
+Print Assumptions C28_init_is_max_over_branches.
+
+Theorem C28_alter_lower_is_noop_or_clamped :
+  forall branches tables autos s t n w,
+    let w1 := commit_s s w in
+    let b := sbr w1 s in
+    let w' := snd (sstep branches tables autos s (SAlter t n) w) in
+    (cur w1 t < n -> cur w' t = n) /\
+    (n <= cur w1 t -> bmax w1 b t < n ->
+       cur w' t = N.max n (max_over (fun b' => if b' =? b then 0 else bval w1 b' t) branches) /\ bval w' b t = n) /\
+    (n <= cur w1 t -> n <= bmax w1 b t -> w' = w1) /\
+    ((forall b', In b' branches -> bval w1 b' t <= cur w1 t) -> forall b', In b' branches -> bval w' b' t <= cur w' t).
+Proof. exact alter_lower_is_noop_or_clamped. Qed.
+Print Assumptions C28_alter_lower_is_noop_or_clamped.
+
+Theorem C28_next_increasing_tables :
+  forall branches tables autos t sc w,
+    forallb (fun p => plain_op (snd p)) sc = true -> StronglySorted N.lt (gens branches tables autos t sc w).
+Proof. exact next_increasing_tables. Qed.
+Print Assumptions C28_next_increasing_tables.
+
+Theorem C28_tables_independent :
+  forall branches tables autos s t t' w,
+    t <> t' -> cur (snd (sstep branches tables autos s (SGen t) w)) t' = cur w t'.
+Proof. exact tables_independent. Qed.
+Print Assumptions C28_tables_independent.
